@@ -75,5 +75,64 @@ Section Faults.
     (destruct (_ <? _)%nat; simpl; [reflexivity|]);
     rewrite Ht; reflexivity.
   Qed.
+  (* the abstract file with another data block / trailer flag / check value: what a byte-level
+     truncation or corruption of the same file looks like to the reader *)
+  Definition damaged (fl : ovf_file V) (chk : option Q) (p : list V) (tail : bool) : ovf_file V :=
+    mkFile (f_v2 fl) (f_meshunit fl) (f_base fl) (f_nodes fl) (f_step fl) (f_min fl) (f_max fl)
+           (f_valuedim fl) (f_labels fl) (f_units fl) (f_rep fl) chk p (f_cols fl) tail.
+
+  (* cut inside the check value: nothing complete to compare *)
+  Lemma no_check_rejected (fl : ovf_file V) (side : option sidecar) :
+    is_binary (f_rep fl) = true -> f_check fl = None -> is_ok (decode d rd fl side) = false.
+  Proof.
+    intros Hb Hc. unfold decode.
+    destruct (f_v2 fl); [destruct (f_valuedim fl)|]; simpl; try reflexivity;
+    (destruct (negb _); [reflexivity|]);
+    (destruct (mk_region _ _ _ _ _); simpl; [|reflexivity]);
+    (destruct (mesh_by_cell _ _); simpl; [|reflexivity]);
+    (destruct (f_rep fl) eqn:Hr; [discriminate Hb| |]); rewrite Hc; reflexivity.
+  Qed.
+
+  (* every truncation point inside the data block: any prefix of the payload that is shorter than
+     announced, whatever check value is (still) there and whatever follows *)
+  Lemma every_cut_rejected (fl : ovf_file V) (side : option sidecar) (k : nat) (chk : option Q) (tail : bool) :
+    is_binary (f_rep fl) = true -> (k < announced fl)%nat ->
+    is_ok (decode d rd (damaged fl chk (firstn k (f_payload fl)) tail) side) = false.
+  Proof.
+    intros Hb Hk. apply short_block_rejected; [exact Hb|].
+    unfold announced, damaged in *. cbn [f_payload f_nodes f_v2 f_valuedim]. rewrite firstn_length. lia.
+  Qed.
+
+  (* cuts behind the data block (only trailer bytes are lost; the flag says the rest is still a
+     prefix of the end marker): the same field is returned *)
+  Lemma cut_in_trailer_same (fl : ovf_file V) (side : option sidecar) (f' : ofield V) (k : nat) :
+    is_binary (f_rep fl) = true -> decode d rd fl side = OK f' -> (announced fl <= k)%nat ->
+    decode d rd (damaged fl (f_check fl) (firstn k (f_payload fl)) true) side = OK f'.
+  Proof.
+    intros Hb H Hk. unfold decode, announced, damaged in *.
+    cbn [f_v2 f_meshunit f_base f_nodes f_step f_min f_max f_valuedim f_labels f_units f_rep f_check
+         f_payload f_cols f_tail_ok].
+    set (vdr := if f_v2 fl then match f_valuedim fl with Some z => OK (Z.to_nat z) | None => Err KeyE end
+                else OK 3%nat) in *.
+    assert (Hvd : forall vd, vdr = OK vd ->
+              vd = (if f_v2 fl then match f_valuedim fl with Some z => Z.to_nat z | None => 0%nat end else 3%nat)).
+    { unfold vdr. intros vd E. destruct (f_v2 fl); [destruct (f_valuedim fl)|]; inversion E; reflexivity. }
+    destruct vdr as [vd|]; [|discriminate H]. rewrite <- (Hvd vd eq_refl) in Hk. clear Hvd.
+    cbn [bind] in *.
+    destruct (negb _); [discriminate H|].
+    destruct (mk_region _ _ _ _ _) as [r|]; cbn [bind] in *; [|discriminate H].
+    destruct (mesh_by_cell r (f_step fl)) as [m|]; cbn [bind] in *; [|discriminate H].
+    destruct (f_rep fl) eqn:Hr; [discriminate Hb| |];
+    (destruct (f_check fl) as [cv|]; [|discriminate H]);
+    (destruct (negb (Qeq_bool cv _)); [discriminate H|]);
+    (destruct (Nat.ltb_spec (length (f_payload fl)) (Z.to_nat (zprod (f_nodes fl)) * vd)) as [L|L];
+       [discriminate H|]);
+    (destruct (negb (f_tail_ok fl)); [discriminate H|]);
+    rewrite firstn_length, firstn_firstn;
+    (destruct (Nat.ltb_spec (Nat.min k (length (f_payload fl))) (Z.to_nat (zprod (f_nodes fl)) * vd)) as [L2|L2];
+       [exfalso; lia|]);
+    cbn [negb]; rewrite (Nat.min_l _ k) by exact Hk; exact H.
+  Qed.
 End Faults.
 Arguments announced {V}.
+Arguments damaged {V}.
